@@ -41,7 +41,7 @@ Definition param_kind (k : mkind) (f : lfield) : kind :=
 (* the fields as the name layout sees them *)
 Definition layout_fields (k : mkind) (lm : lmodel) : list Layout.fld :=
   map (fun nf => {| f_id := fst nf; f_name := field_id k (snd nf); f_required := l_required (snd nf) |})
-      (combine (seq 0 (List.length lm)) (ordered k lm)).
+      (combine (seq 0 (List.length (ordered k lm))) (ordered k lm)).
 
 Definition kind_text (k : kind) : string := match k with PosOnly => "POS_ONLY" | PosOrKw => "POS_OR_KW" | KwOnly => "KW_ONLY" end.
 
